@@ -1,10 +1,11 @@
 -------------------------- MODULE Gen_TaskGrammar --------------------------
 EXTENDS TaskGrammar, Json, Randomization
-Emit == (hist = <<>>) => PrintT(<<"BEHAVIOUR", ToJson(<<[op |-> "Cell", key |-> key,
+Emit == (hist = <<>> /\ last.op = "none") => PrintT(<<"BEHAVIOUR", ToJson(<<[op |-> "Cell", key |-> key, looks |-> looks,
             batch |-> [i \in 1..Len(batch) |-> [row |-> batch[i].row, pclass |-> batch[i].pclass, cmd |-> Row(batch[i].row).cmd, extra |-> Row(batch[i].row).extra,
                                                  fields |-> Row(batch[i].row).fields]]]>>)>>)
 Task == [row : RowNames, pclass : PClasses]
-MixInit == /\ batch \in RandomSubset(400, [1..2 -> Task]) \cup RandomSubset(400, [1..3 -> Task])
+MixInit == /\ batch \in RandomSubset(100, [1..2 -> Task]) \cup RandomSubset(100, [1..3 -> Task])
+           /\ looks \in 0..2
            /\ key \in KeyClasses /\ params = <<>> /\ last = [op |-> "none"] /\ hist = <<>>
 MixSpec == MixInit /\ [][Next]_vars
 =============================================================================
